@@ -18,7 +18,7 @@ Theorem mutate_p0_leaves_unchanged :
     (forall i b b', mut_check fzero ms (SBool i) p c (VBool b) (VBool b') = Some c' -> b' = b /\ c' = c) /\
     (forall vs i a b, mut_check fzero ms (SEnum vs i) p c (VEnum a) (VEnum b) = Some c' -> b = a /\ c' = c) /\
     (forall i sc mn mx x x', mut_check fzero ms (SReal i sc mn mx) p c (VReal x) (VReal x') = Some c' ->
-                             to_bits x' = to_bits x /\ c' = c) /\
+                             x' = x /\ c' = c) /\
     (forall i sc mn mx z z', mut_check fzero ms (SInt i sc mn mx) p c (VInt z) (VInt z') = Some c' -> z' = z /\ c' = c).
 Proof.
   intros. split; [|split; [|split]]; intros.
